@@ -267,10 +267,18 @@ func runRPC(o *Opts) *Summary {
 		}
 		vn.EmitInit(map[string]interface{}{"sched": "rpc", "seed": o.Seed*1000 + int64(t), "nc": n + 2, "suspend_limit": limit})
 		// the driver plays the heartbeat: checkSuspend after every exchange
+		autoSuspended := map[int]bool{}
 		hb := func(nd *NNode) {
-			if nd.State() != "Babbling" {
+			// (a node that suspended itself stays suspended until it is restarted: the
+			// driver may have forced its state back, its suspend channel is closed)
+			if nd.State() != "Babbling" || autoSuspended[nd.num] {
 				return
 			}
+			defer func() {
+				if nd.State() == "Suspended" {
+					autoSuspended[nd.num] = true
+				}
+			}()
 			before := nd.State()
 			undet := len(nd.core.Hg().UndeterminedEvents)
 			nd.node.VCheckSuspend()
